@@ -447,3 +447,50 @@ func zzC01OwnNodeID() {
 }
 
 func ZZ_C01_OwnNodeID() { zzC01OwnNodeID() }
+
+// A URR id that is removed and provisioned again. The data plane may answer a removal or a query
+// with a usage report or with none (the repository's no-op driver and gtp5g on an empty answer give
+// none), so the control side's record of the first incarnation can still be around when the id comes
+// back. However the session then ends - deletion, re-association of its node, a report response with
+// SEID 0 - the rule of the second incarnation is withdrawn like every other.
+func zzC01URRRecreated() {
+	w := zzMkSeq() // one session of node A: URR 1 (referenced by PDR 1), relaxed data plane
+	w.dp.repCap = 1
+	for i := 0; i < 3; i++ {
+		w.seq++
+		switch nondetChoice("op", 3) {
+		case 0:
+			zzDeliver(w.s, zzModReq(1, w.seq, ie.NewQueryURR(ie.NewURRID(1))), zzAddrA, w.seq)
+		case 1:
+			zzDeliver(w.s, zzModReq(1, w.seq, ie.NewRemoveURR(ie.NewURRID(1))), zzAddrA, w.seq)
+			w.urr[0] = false
+		case 2:
+			zzAssume(!w.urr[0])
+			zzDeliver(w.s, zzModReq(1, w.seq, ie.NewCreateURR(ie.NewURRID(1), ie.NewMeasurementMethod(0, 1, 0), ie.NewReportingTriggers(0x02, 0x00))), zzAddrA, w.seq)
+			w.urr[0] = true
+			zzCover("C01.urr-recreated.recreated")
+		}
+	}
+	want := 1 // PDR 1
+	if w.urr[0] {
+		want = 2
+	}
+	zzAssert("C01.urr-recreated.rules-before-the-end", w.dp.rulesOf(1) == want)
+	w.seq++
+	switch nondetChoice("ends-by", 3) {
+	case 0:
+		zzDeliver(w.s, zzDelReq(1, w.seq), zzAddrA, w.seq)
+	case 1:
+		zzDeliver(w.s, zzAssocReq(w.seq, zzNodeA), zzAddrA, w.seq)
+	case 2:
+		req := message.NewSessionReportRequest(0, 0, w.sess.RemoteID, 0, 0, ie.NewReportType(0, 0, 1, 0))
+		rsp := message.NewSessionReportResponse(0, 0, 0, 0, 0, ie.NewCause(ie.CauseSessionContextNotFound))
+		w.s.handleSessionReportResponse(rsp, zzAddrA, req)
+	}
+	_, err := w.s.lnode.Sess(1)
+	zzAssert("C01.urr-recreated.session-ended", err != nil)
+	zzAssert("C01.urr-recreated.all-rules-withdrawn", w.dp.rulesOf(1) == 0)
+	zzCover("C01.urr-recreated.done")
+}
+
+func ZZ_C01_URRRecreated() { zzC01URRRecreated() }
